@@ -268,6 +268,9 @@ impl SlabRouter {
                 Ok(())
             },
             _ => {
+                // put_durable registers any key that carries an embedding in the entity
+                // index; drop that entry too, or `scan` keeps listing the deleted key.
+                self.index.remove(key);
                 self.metadata.delete(key);
                 Ok(())
             },
@@ -481,6 +484,16 @@ impl SlabRouter {
         if let Some(wal_mutex) = &self.wal {
             let mut wal = wal_mutex.lock();
 
+            // Log metadata set (sync behavior depends on WalConfig::sync_mode).
+            // This record alone restores the whole value on replay (including the
+            // embedding), so it goes first: a crash between the two records must not
+            // leave a new embedding under the old metadata.
+            wal.append(&WalEntry::MetadataSet {
+                key: key.to_string(),
+                data: value.clone(),
+            })
+            .map_err(|e| SlabRouterError::WalError(format!("Failed to log put: {e}")))?;
+
             // Log embedding if present
             if let Some(TensorValue::Vector(embedding)) = value.get("_embedding") {
                 let entity_id = self.index.get_or_create(key);
@@ -490,13 +503,6 @@ impl SlabRouter {
                 })
                 .map_err(|e| SlabRouterError::WalError(format!("Failed to log embedding: {e}")))?;
             }
-
-            // Log metadata set (sync behavior depends on WalConfig::sync_mode)
-            wal.append(&WalEntry::MetadataSet {
-                key: key.to_string(),
-                data: value.clone(),
-            })
-            .map_err(|e| SlabRouterError::WalError(format!("Failed to log put: {e}")))?;
         }
 
         // Apply to in-memory state
@@ -627,6 +633,11 @@ impl SlabRouter {
         match entry {
             WalEntry::MetadataSet { key, data } => {
                 self.metadata.set(key, data.clone());
+                // `put` registers every embedding-class key in the entity index; do the
+                // same here so that replay assigns the entity ids the live store logged.
+                if Self::classify_key(key) == KeyClass::Embedding {
+                    let _ = self.index.get_or_create(key);
+                }
                 // Also update embeddings if present
                 if let Some(TensorValue::Vector(vec)) = data.get("_embedding") {
                     let entity_id = self.index.get_or_create(key);
